@@ -197,6 +197,12 @@ func (im *Image) Samples() []int {
 		for j := 0; j < k && n > 0; j++ {
 			out[r.intn(n)] = lo + r.intn(rng)
 		}
+	case "cat16": // values whose neighbour differences hit +-32768 / +-(2^P-1) (Huffman category 16 at P=16)
+		half := 1 << uint(im.P-1)
+		set := []int{lo, hi, lo + half, lo + half - 1, lo + 1, clampv(lo + half + 1)}
+		for i := range out {
+			out[i] = set[r.intn(len(set))]
+		}
 	case "nearedge": // samples within Par of the range ends
 		for i := range out {
 			d := r.intn(im.Par + 2)
@@ -374,6 +380,9 @@ func FillContent(t *rapid.T, im *Image, o ImageOpts) {
 		case "constant", "sparse", "runs":
 			base := rapid.IntRange(lo, hi).Draw(t, "base")
 			sg = rapid.OneOf(rapid.Just(base), rapid.Just(base), rapid.Just(base), rapid.IntRange(lo, hi))
+		case "cat16":
+			half := 1 << uint(im.P-1)
+			sg = rapid.SampledFrom([]int{lo, hi, lo + half, lo + half - 1, lo + 1, min(hi, lo+half+1)})
 		case "extremes":
 			sg = rapid.OneOf(rapid.SampledFrom([]int{lo, hi, mid, max(lo, mid-1), min(hi, mid+1)}), rapid.IntRange(lo, hi))
 		default:
